@@ -807,9 +807,13 @@ class Tensor(object):
 
     def __pow__(self, other: Union[Any, torch.Tensor]):
 
+        if isinstance(other, Tensor):
+            return tn.cross(
+                function=lambda x, y: x**y, tensors=[self, other], verbose=False
+            )
         return tn.cross(
-            function=lambda x, y: x**y,
-            tensors=[self, tn.full_like(self, fill_value=other)],
+            function=lambda x: x**other,
+            tensors=[self],
             verbose=False,
         )
 
